@@ -1,4 +1,4 @@
 #!/bin/sh
 # dev helper: generate the full unit and run verus with trimmed output.  usage: tools/v.sh [extra verus args]
-cd /verif && python3 tools/vx.py contracts/all.vs ${VX_REPO:+--repo $VX_REPO} -o /tmp/vt/all.rs 2>/tmp/vt/vx.err || { tail -5 /tmp/vt/vx.err; exit 1; }
-cd /tmp/vt && verus all.rs --no-lifetime --triggers-mode silent --multiple-errors ${VERR:-4} "$@" 2>&1 | grep -v conda | grep -v "autoderive\|^warning\|^note: while loop\|^note: function body check" | grep -v "^ *= help\|derive\|= note" | grep -v "^ *|$\|\^\^\^\^\^$\|^$\|^ *--> all.rs:[0-9]*:19$" | cut -c1-220 | head -${VLINES:-70}
+cd /verif && python3 tools/vx.py contracts/all.vs ${VX_REPO:+--repo $VX_REPO} -o /root/scratch/vt/all.rs 2>/root/scratch/vt/vx.err || { tail -5 /root/scratch/vt/vx.err; exit 1; }
+cd /root/scratch/vt && verus all.rs --no-lifetime --triggers-mode silent --multiple-errors ${VERR:-4} "$@" 2>&1 | grep -v conda | grep -v "autoderive\|^warning\|^note: while loop\|^note: function body check" | grep -v "^ *= help\|derive\|= note" | grep -v "^ *|$\|\^\^\^\^\^$\|^$\|^ *--> all.rs:[0-9]*:19$" | cut -c1-220 | head -${VLINES:-70}
